@@ -35,3 +35,7 @@ chk("C14",
     "TLC enumerates every integer rectangle (x,y in -2..6, w,h in -3..6) on a 4x4 destination of distinct pixels with blend mode/source/alpha variants, and for each the four route pairs of the property (fill_rect vs fill(rect path); with vs without surface-covering clip; clear with vs without clip; draw_image_at vs fill_rect with translated image); the harness runs both routes and TLC requires bit-identical pixels.",
     "Trusted: harness run_routes. Exhaustive over the stated rectangle grid; variants by hash.",
     "TLA+ two-route specification (FillRect is Fill(RectPath)) + TLC-enumerated scenarios + TLC equality validation", "DESIGN.md 7 C14")
+chk("C18",
+    "Design level: TLC checks on a boundary grid of channel values that every blend mode and compositing primitive of Pixel.tla (all 28 modes transcribed from sw-composite, self-checked against the real functions on thousands of tuples each run) preserves r,g,b <= a and the endpoint lemmas. Implementation level: the C03 canvas histories (28 modes, coverage and clip ramps, alpha, layers) with premultiplied inputs are executed and TLC evaluates Premul on every recorded pixel after every call; from_unpremultiplied_argb / From<Color> are checked for all 256x256 (alpha, colour) pairs.",
+    _canvas_note + " The non-separable modes' defect inside sw-composite is a known finding.",
+    "TLA+ Pixel.tla invariants model-checked by TLC + TLC trace validation of Premul on recorded histories", "DESIGN.md 7 C18")
